@@ -30,9 +30,9 @@ Call == /\ Live("call")
                      [s EXCEPT !.alive = (E.res = "ok"), !.ncalls = @ + 1])
            /\ Count((IF E.res = "ok" THEN {"calls_ok"} ELSE {"calls_unavailable"}) \cup (IF E.killed_before > 0 THEN {"drops"} ELSE {})
                     \cup (IF E.consumed # <<>> /\ s.ncalls > 0 THEN {"reconnects"} ELSE {}))
-Ignore == /\ l <= Len(Rec) /\ ~dead /\ E.e \in {"srv_req", "summary"} /\ l' = l + 1 /\ UNCHANGED <<run, dead, bad, s, stats>>
+Ignore == /\ l <= Len(Rec) /\ ~dead /\ E.e \in {"srv_req", "summary", "hook", "connector", "kill", "issue"} /\ l' = l + 1 /\ UNCHANGED <<run, dead, bad, s, stats>>
 End == EndK(<< <<"RunComplete", E.outcome = "ok" => (s.connected => s.ncalls = s.stim.calls)>> >>)
-Known == {"reset", "connect", "call", "srv_req", "summary", "end"}
+Known == {"reset", "connect", "call", "srv_req", "summary", "hook", "connector", "kill", "issue", "end"}
 Next == Reset \/ Connect \/ Call \/ Ignore \/ End \/ UnknownK(Known) \/ DeadSkipK
 Spec == Init /\ [][Next]_kvars
 =============================================================================
